@@ -278,6 +278,16 @@ def writeRtcp (fmt pt : Nat) (body : Bytes) : Bytes :=
   let b := body ++ List.replicate (pad4 body.length) 0
   u8 (c15RtpVersion * 64 + fmt % 32) :: u8 pt :: (be16n ((b.length + 4) / 4 - 1) ++ b)
 
+/-- the TWCC arm: a body that is not 32-bit aligned gets RFC 3550 padding (zero bytes, the count in
+the last byte) and the P bit is set on the first header byte afterwards (`out[start] |= 0x20`) -/
+def twccWire (body : Bytes) : Bytes :=
+  let pad := pad4 body.length
+  if pad = 0 then writeRtcp c15FmtTwcc c15RtcpRtpfb body
+  else
+    match writeRtcp c15FmtTwcc c15RtcpRtpfb (body ++ List.replicate (pad - 1) 0 ++ [u8 pad]) with
+    | b0 :: rest => (b0 ||| 0x20) :: rest
+    | [] => []
+
 /-- one arm of `marshal_rtcp_packets` -/
 def marshalOne : Rtcp → Except Err Bytes
   | .sr s m l t p o bl =>
@@ -302,7 +312,7 @@ def marshalOne : Rtcp → Except Err Bytes
   | .remb s br ss =>
     if ss.length > c15RembMaxSsrcs then .error (.rtcp "too many REMB SSRC entries")
     else .ok (writeRtcp c15FmtApp c15RtcpPsfb (rembBody s br ss))
-  | .twcc s m b c r f pl => .ok (writeRtcp c15FmtTwcc c15RtcpRtpfb (twccBody s m b c r f pl))
+  | .twcc s m b c r f pl => .ok (twccWire (twccBody s m b c r f pl))
 
 /-- `marshal_rtcp_packets` -/
 def marshalCompound : List Rtcp → Except Err Bytes
